@@ -50,7 +50,7 @@ INFO = {
         'seeded schedules of writers / readers / one packer at seam-call granularity, acked-history oracle; a run is '
         'non-trivial if some reader seam call fell between a packer COMMIT and the end of its unlink loop or a reader '
         'took the re-query fallback; distinct = distinct schedule digest',
-        3000,
+        4000,
     ),
     'C05': _p(
         'fault_enumeration',
